@@ -35,3 +35,11 @@ CLAIMS["C10"] = dict(level="exploration",
     technique="exhaustive enumeration of a client x server-configuration grid (deviation-bounded pairs in quick, full product in thorough) with server choices restricted by a small negotiation model to values the on-wire hello offers",
     text="Every discovered ID, enumerated randomized seeds, custom specs and fingerprinted copies are handshaken against every server configuration (version, pinned group incl. HRR-forcing ones, pinned TLS 1.2 suite, certificate kind, ALPN) that the parsed on-wire hello offers; the handshake must complete on both sides and 1 KiB must echo both ways.",
     note="Peer is utls's own Server; TLS 1.3 suite selection is not pinned; who aborted is classified from error texts; negotiation model (mc/props/grid.go) trusted.")
+CLAIMS["C18"] = dict(level="exploration",
+    technique="exhaustive enumeration of clients x every offered key-share group forced on the server x 3 connections under scripted per-connection entropy",
+    text="For every client and every group its hello carries a share for, the server is pinned to that group: the handshake must succeed without HRR and echo data; share sizes are checked by the strict parser; client random, session id and every key share must be pairwise distinct across the three connections.",
+    note="Freshness = non-repetition under different Config.Rand streams; QUIC's empty session id is covered by C23.")
+CLAIMS["C11"] = dict(level="exploration",
+    technique="exhaustive enumeration of the handshake grid x SNI modes x client-auth, comparing both ends' ConnectionState and 27 exporter triples per successful handshake",
+    text="Every successful handshake of the client x server-choice grid (plus SNI removed / IP literal / empty name, and a server requesting a client certificate) has its two ConnectionStates compared field by field, the reported server name compared with the SNI parsed from the wire, and ExportKeyingMaterial compared for 27 (label, context, length) triples.",
+    note="One-sided exporter refusals accepted only for the two documented reasons; labels up to 240 bytes (the TLS 1.3 HKDF label limit).")
